@@ -76,6 +76,7 @@ var c06Contract = []chainReq{
 
 func checkC06(ctx *Ctx, r *Report) {
 	defer c06SecondHunt(ctx, r)
+	defer c06FourthHunt(ctx, r)
 	defer c06PHPStringLiterals(ctx, r)
 	// the last pass of the Java chain removes objects: what the generators are handed must not refer to them
 	defer func() { c05RemovedObjectsRewrittenEverywhere(ctx, r, newEffectsEngine(ctx)) }()
@@ -1640,4 +1641,192 @@ func c06PHPStringLiterals(ctx *Ctx, r *Report) {
 	}
 	r.Count("PHP enum templates", n)
 	r.Floor("PHP enum templates", 1)
+}
+
+// c06FourthHunt — fourth hunt:
+//   - (C04 as well) RemoveIntersections replaces a reference to the alias of a list by a copy of the list and visits
+//     the copy: it keeps the set of aliases being expanded and fails on the alias of a list defined in terms of itself
+//     (`Tree: Nodes`, `Nodes: [...Tree]` overflowed the stack); flow/inlining-bounded (C04) asks for its bound;
+//   - where members are declared next to the objects (Go: EnumIdentifier is set), EnumMemberIdentifiers compares the
+//     identifier of a member with the identifiers of every object and of the members of the other enums of the schema;
+//   - a named optional (`MaybeName: string | null`) reaches the generators as an object whose own type is nullable —
+//     by design (DisjunctionWithNullToOptional documents it). Python: the default of a reference to such an object is
+//     None (the alias can not be instantiated). (finding) Go: the builder jenny names the internal object after the
+//     alias (`type MaybeAddress = *Address`, `&MaybeAddress{}`) without asking whether the object's own type is nullable.
+func c06FourthHunt(ctx *Ctx, r *Report) {
+	n := 0
+	// (a)
+	n += c06ListAliasExpandedOnce(ctx, r)
+	// (b)
+	if fn := ctx.LookupMethod("internal/ast/compiler", "EnumMemberIdentifiers", "Process"); fn == nil {
+		r.Undecided("anchor lost: compiler.EnumMemberIdentifiers.Process")
+	} else if fd, p := ctx.DeclOf(fn); fd != nil {
+		info := p.TypesInfo
+		named := namedOf(fn.Type().(*types.Signature).Recv().Type())
+		// some method of the pass, reached from Process, fills one table with the identifiers of the objects
+		// (EnumIdentifier) *and* looks the identifiers of the members (Identifier) up in it
+		shared := false
+		for _, mfd := range methodsOf(ctx, named) {
+			tables := map[types.Object][2]bool{}
+			mark := func(o types.Object, i int) {
+				v := tables[o]
+				v[i] = true
+				tables[o] = v
+			}
+			isCallOfField := func(e ast.Expr, field string) bool {
+				c, ok := ast.Unparen(e).(*ast.CallExpr)
+				if !ok {
+					return false
+				}
+				sel, ok := ast.Unparen(c.Fun).(*ast.SelectorExpr)
+				return ok && sel.Sel.Name == field
+			}
+			vars := map[types.Object]string{}
+			ast.Inspect(mfd.Body, func(m ast.Node) bool {
+				if as, ok := m.(*ast.AssignStmt); ok && len(as.Lhs) == 1 && len(as.Rhs) == 1 {
+					if id, ok := as.Lhs[0].(*ast.Ident); ok {
+						if isCallOfField(as.Rhs[0], "Identifier") {
+							vars[objOf(info, id)] = "member"
+						}
+						if isCallOfField(as.Rhs[0], "EnumIdentifier") {
+							vars[objOf(info, id)] = "object"
+						}
+					}
+				}
+				return true
+			})
+			kindOfKey := func(e ast.Expr) string {
+				if isCallOfField(e, "EnumIdentifier") {
+					return "object"
+				}
+				if isCallOfField(e, "Identifier") {
+					return "member"
+				}
+				if id, ok := ast.Unparen(e).(*ast.Ident); ok {
+					return vars[objOf(info, id)]
+				}
+				return ""
+			}
+			ast.Inspect(mfd.Body, func(m ast.Node) bool {
+				ix, ok := m.(*ast.IndexExpr)
+				if !ok {
+					return true
+				}
+				id, ok := ast.Unparen(ix.X).(*ast.Ident)
+				if !ok {
+					return true
+				}
+				if _, isMap := info.TypeOf(ix.X).Underlying().(*types.Map); !isMap {
+					return true
+				}
+				switch kindOfKey(ix.Index) {
+				case "object":
+					mark(objOf(info, id), 0)
+				case "member":
+					mark(objOf(info, id), 1)
+				}
+				return true
+			})
+			for _, v := range tables {
+				if v[0] && v[1] {
+					shared = true
+				}
+			}
+		}
+		_ = fd
+		n++
+		r.Check(shared, "chains/enum-member-identifiers", "compiler.EnumMemberIdentifiers compares members with the other declarations of the schema", fn.Pos(), "one table holds the identifiers of the objects and those of the members",
+			"EnumMemberIdentifiers compares the identifier of a member with those of its own enum only, although (EnumIdentifier set: Go) members are declared in the package block: `Sort: asc | desc | order` next to an object SortOrder gives the constant SortOrder and the type SortOrder — redeclared in this block; `Sort{order_asc}` and `SortOrder{asc}` both give SortOrderAsc")
+	}
+	// (c)
+	if fn := ctx.LookupFunc("internal/jennies/python", "defaultValueForTypeRec"); fn == nil {
+		r.Undecided("anchor lost: python.defaultValueForTypeRec")
+	} else if fd, p := ctx.DeclOf(fn); fd != nil {
+		info := p.TypesInfo
+		asksNullable := false
+		ast.Inspect(fd.Body, func(m ast.Node) bool {
+			is, ok := m.(*ast.IfStmt)
+			if !ok {
+				return true
+			}
+			reads := false
+			ast.Inspect(is.Cond, func(k ast.Node) bool {
+				if sel, ok := k.(*ast.SelectorExpr); ok && sel.Sel.Name == "Nullable" {
+					if inner, ok := ast.Unparen(sel.X).(*ast.SelectorExpr); ok && inner.Sel.Name == "Type" && namedName(info.TypeOf(inner.X)) == "Object" {
+						reads = true
+					}
+				}
+				return true
+			})
+			if reads {
+				for _, st := range is.Body.List {
+					if rs, ok := st.(*ast.ReturnStmt); ok && len(rs.Results) == 1 && isNilIdent(info, rs.Results[0]) {
+						asksNullable = true
+					}
+				}
+			}
+			return true
+		})
+		n++
+		r.Check(asksNullable, "skeleton/python-named-optional-default", "python.defaultValueForTypeRec defaults a reference to a named optional", fd.Pos(), "None when the referred object's own type is nullable",
+			"the default of a reference is `Name()` whatever the referred object: `MaybeName: string | null` is a typing.Optional alias once the chain made it a nullable string — User() raises TypeError: Cannot instantiate typing.Union")
+	}
+	if fn := ctx.LookupMethod("internal/jennies/golang", "Builder", "generateBuilder"); fn == nil {
+		r.Undecided("anchor lost: golang.Builder.generateBuilder")
+	} else if fd, _ := ctx.DeclOf(fn); fd != nil {
+		asks := false
+		ast.Inspect(fd.Body, func(m ast.Node) bool {
+			if sel, ok := m.(*ast.SelectorExpr); ok && sel.Sel.Name == "Nullable" && strings.Contains(exprString(sel.X), ".For.Type") {
+				asks = true
+			}
+			return true
+		})
+		n++
+		r.Check(asks, "skeleton/go-named-optional-builder", "golang.Builder.generateBuilder builds an object whose own type can be nullable", fd.Pos(), "it asks whether builder.For.Type is nullable",
+			"the Go builder of `MaybeAddress: Address | null` — `type MaybeAddress = *Address` once the chain made it a nullable reference — is written as for a struct: `internal *MaybeAddress`, `&MaybeAddress{}`, `builder.internal.City` — invalid composite literal type, the module does not compile")
+	}
+	r.Count("hunted clauses of the normal forms (4th hunt)", n)
+	r.Floor("hunted clauses of the normal forms (4th hunt)", 4)
+}
+
+// c06ListAliasExpandedOnce: see c06FourthHunt (a). Also run by C04: the run crashed.
+func c06ListAliasExpandedOnce(ctx *Ctx, r *Report) int {
+	n := 0
+	if fn := ctx.LookupMethod("internal/ast/compiler", "RemoveIntersections", "redirectReference"); fn == nil {
+		r.Undecided("anchor lost: compiler.RemoveIntersections.redirectReference")
+	} else if fd, p := ctx.DeclOf(fn); fd != nil {
+		info := p.TypesInfo
+		// the recursive visit of the replacement is preceded by a lookup in a set, with an error exit, and a store
+		var visit token.Pos
+		ast.Inspect(fd.Body, func(m ast.Node) bool {
+			if c, ok := m.(*ast.CallExpr); ok {
+				if f := callee(info, c); f != nil && f.Name() == "VisitType" {
+					visit = c.Pos()
+				}
+			}
+			return true
+		})
+		guarded := false
+		ast.Inspect(fd.Body, func(m ast.Node) bool {
+			is, ok := m.(*ast.IfStmt)
+			if !ok || !visit.IsValid() || is.Pos() > visit || len(is.Body.List) == 0 {
+				return true
+			}
+			as, ok := is.Init.(*ast.AssignStmt)
+			if !ok || len(as.Lhs) != 2 || len(as.Rhs) != 1 {
+				return true
+			}
+			if _, isIndex := ast.Unparen(as.Rhs[0]).(*ast.IndexExpr); !isIndex {
+				return true
+			}
+			if rs, ok := is.Body.List[len(is.Body.List)-1].(*ast.ReturnStmt); ok && len(rs.Results) == 2 && !isNilIdent(info, rs.Results[1]) {
+				guarded = true
+			}
+			return true
+		})
+		n++
+		r.Check(visit.IsValid() && guarded, "flow/list-alias-expanded-once", "compiler.RemoveIntersections.redirectReference visits the list it puts in place of an alias", fd.Pos(), "after looking the alias up in the set of those being expanded, with an error exit",
+			"redirectReference replaces ref(Tree) by the list Tree stands for and visits it, with no memory of the aliases being expanded: `Tree: Nodes`, `Nodes: [...Tree]` — a nested list, which every other chain handles — recurses until the stack overflows (fatal error, the process dies: no error is returned)")
+	}
+	return n
 }
